@@ -57,6 +57,12 @@ fn main() {
             run_dfs(&mut rep, "partitions-3hosts", tier.pick(2, 3), wall, move |ch| flow::c03_scenario(ch, thorough));
             rep.finish();
         }
+        "C14" => {
+            let mut rep = Report::new("C14", tier, "model_checking", "sim");
+            rep.rule = "stateless enumeration: tick x global (min,max) x per-link / global overrides (fixed, link max, global max; before the run or mid-run; by name or regex) x burst size / in-step offset, with the latency variate of every message answered by the explorer from {0, 1/4, 1/2, 1, 4} through the cfg-guarded hook (the clamp is exercised by 4); sender's sim_elapsed is carried in the payload, receiver logs its own at receipt".into();
+            run_dfs(&mut rep, "latency-window", 0, wall, move |ch| flow::c14_scenario(ch, thorough));
+            rep.finish();
+        }
         other => vx_core::machinery_error(&format!("vx-sim does not serve {other}")),
     }
 }
@@ -73,6 +79,7 @@ fn replay(path: &str) {
         "C02" => c02::scenario(&mut ch, thorough),
         "C08" => flow::c08_scenario(&mut ch, thorough),
         "C03" => flow::c03_scenario(&mut ch, thorough),
+        "C14" => flow::c14_scenario(&mut ch, thorough),
         _ => vx_core::machinery_error("unknown property in replay file"),
     };
     for l in ch.describe() {
